@@ -338,8 +338,8 @@ class Check:
                         backend=tid, file=b['file'],
                         branch=(b['branches'][idx - 1] if idx >= 1 else 'vocabulary')))
                     return dict(t=tid, meta={}), ev
-            for kind in ('paths', 'handles'):
-                for i, p in enumerate(data[kind]):
+            for kind in ('paths', 'handles', 'caches'):
+                for i, p in enumerate(data.get(kind, [])):
                     if (p.get('where') or p.get('backend')) == tid and i + 1 == idx:
                         return dict(t=tid, meta={}), dict(op=kind, a=p)
             return dict(t=tid, meta={}), dict(op='?', a={})
